@@ -4,3 +4,14 @@ import CompmechVerif.Props.C07
 #print axioms Compmech.Static.C07.shape_rows_match_field
 #print axioms Compmech.Static.C07.solve_sound
 #print axioms Compmech.Static.C07.solve_linear
+#print axioms Compmech.Static.C07.bay_fext_dot_c_eq_work
+#print axioms Compmech.Static.C07.bay_fext_offsets
+#print axioms Compmech.Static.C07.bay_fext_additive
+#print axioms Compmech.Static.C07.bay_fext_no_load_factor
+#print axioms Compmech.Static.C07.bay_fext_incrementable_ignored_counterexample
+#print axioms Compmech.Static.C07.assembly_fext_col_start_dot_c_eq_work
+#print axioms Compmech.Static.C07.assembly_fext_incremental_only
+#print axioms Compmech.Static.C07.static_linear_solves
+#print axioms Compmech.Static.C07.static_loads_at_full_load_factor
+#print axioms Compmech.Static.C07.static_linear_in_loads
+#print axioms Compmech.Static.C07.static_increments
